@@ -1,0 +1,7 @@
+//go:build verif
+
+package thrift
+
+// Contracts for the deductive verifier in /verif (comment-only).
+
+//@ pure method timeoutable.Timeout
